@@ -21,7 +21,7 @@ META = {
     "rule": "(a) all prefix-closed path sets of <= n paths over {'a','b',0,'<k&\"'>',two 40-character keys differing in the middle,MapValue(),ListValue()} x 3 condition "
             "assignments x 4 doc blocks; (b) a 4-rule tree x every and-combination (every order, 1-3 operands of a 13-condition "
             "menu) + or / xor combinations at the root and at an inner node; every case x from_path in {none, every rule path} x "
-            "nested in {False, True} x anchor_root in {None, 'root'}; a case is one (schema, from_path); non-trivial = the tree "
+            "nested in {False, True} x anchor_root in {None, 'root'} x heading_start_level in {1, 5}; (c) chains of 7-9 nested levels (one rule per prefix; keys and bare parts interleaved); a case is one (schema, from_path); non-trivial = the tree "
             "has >= 2 nodes and all structural, required-flag and HTML checks ran",
     "assumptions": ["anchor_root is caller-supplied page text, not schema text: kept benign",
                     "the text layout of type / condition summaries is not judged, only that schema text appears escaped"],
@@ -109,6 +109,23 @@ def cases(tier):
             for i, (parts, mi) in enumerate(base):
                 rules.append(T.rule(P(parts), c if i == where else MENU[mi], (), DOCS[i % len(DOCS)]))
             out.append(("schema", tuple(rules)))
+    # (c) deep chains: one rule per prefix of a path of up to 9 parts (every heading level up to 10 and beyond), string
+    # / integer keys and bare map / list parts interleaved, doc blocks at every level
+    chains = [
+        [("prim", k) for k in ("a", "b", "c", "d", "e", "f", "g", "h", MARK)],
+        [("prim", "a"), gen.BARE[1], ("prim", "b"), gen.BARE[0], ("prim", 0), ("prim", "c"), gen.BARE[1], ("prim", LONG1), ("prim", "z")],
+        [gen.BARE[0], gen.BARE[0], ("prim", 1), ("prim", "x"), gen.BARE[1], gen.BARE[1], ("prim", "y"), ("prim", 2)],
+    ]
+    for ch in chains:
+        for depth in ((7, 9) if tier == "quick" else range(5, 10)):
+            rules = []
+            for i in range(min(depth, len(ch)) + 1):
+                nxt = ch[i] if i < len(ch) else None
+                cond = MENU[1] if nxt == gen.BARE[1] or (nxt and nxt[0] == "prim" and isinstance(nxt[1], int)) else MENU[0]
+                if i == min(depth, len(ch)):
+                    cond = MENU[2]
+                rules.append(T.rule(P(tuple(ch[:i])), cond, (), DOCS[i % len(DOCS)]))
+            out.append(("schema", tuple(rules)))
     return out
 
 
@@ -185,7 +202,8 @@ class Strict(HTMLParser):
         self.codes = 0
 
     def handle_starttag(self, tag, attrs):
-        if tag not in self.ALLOWED:
+        # (heading tags of any level: the statement asks for tags closed in order, not for a level limit)
+        if tag not in self.ALLOWED and not (tag[0] == "h" and tag[1:].isdigit()):
             self.errors.append("unexpected tag <%s>" % tag)
         self.stack.append(tag)
         if tag == "code":
@@ -334,10 +352,10 @@ def check_case(res, st, from_parts, key):
             res.violation("required-flag-spurious", "node %r is flagged required" % (n.get("path"),), case)
             return
     # ---- HTML
-    for anchor in (None, "root"):
+    for anchor, start in ((None, 1), ("root", 1), (None, 5)):
         res.count("transitions")
         try:
-            out = write_tree_html(nested, anchor_root=anchor)
+            out = write_tree_html(nested, anchor_root=anchor, heading_start_level=start)
         except BaseException as e:
             res.violation("html-raises:%s" % type(e).__name__, "write_tree_html raised %r" % (e,), case, observed=repr(e))
             return
